@@ -29,9 +29,10 @@ pub fn split_lines(data: &[u8]) -> Vec<&[u8]> {
 
 pub struct Expected {
     /// per Complete: text that must appear in the i-th stdout record
-    pub out: Vec<String>,
-    /// per rejected line: text that must appear in the i-th stderr record
-    pub err: Vec<String>,
+    pub out: Vec<Vec<String>>,
+    /// per rejected line: texts of which one must appear in the i-th stderr record
+    /// (`{:?}` or `{}` of the error - how an error is rendered is the tool's choice)
+    pub err: Vec<Vec<String>>,
     pub kinds: Vec<&'static str>,
     pub lib_panic: Option<String>,
 }
@@ -49,15 +50,19 @@ pub fn expected(data: &[u8]) -> Expected {
         let o = node.parse(line, true, false);
         e.kinds.push(o.kind());
         match o {
-            Outcome::Complete(s, _) => e.out.push(match s.message {
+            Outcome::Complete(s, _) => e.out.push(vec![match s.message {
                 Some(m) => format!("Some({})", m),
                 None => "None".to_string(),
-            }),
+            }]),
             Outcome::Incomplete(..) => {}
-            Outcome::ErrNmea(msg) => e.err.push(format!("Nmea {{ msg: {:?} }}", msg)),
-            Outcome::ErrChecksum { expected, found } => {
-                e.err.push(format!("Checksum {{ expected: {}, found: {} }}", expected, found))
-            }
+            Outcome::ErrNmea(msg) => e.err.push(vec![
+                format!("Nmea {{ msg: {:?} }}", msg),
+                format!("Error parsing NMEA content: {}", msg),
+            ]),
+            Outcome::ErrChecksum { expected, found } => e.err.push(vec![
+                format!("Checksum {{ expected: {}, found: {} }}", expected, found),
+                format!("Checksum error; expected 0x{:x}, found 0x{:x}", expected, found),
+            ]),
             Outcome::Panic(p) => {
                 e.lib_panic = Some(p);
                 break;
@@ -80,7 +85,7 @@ fn contains(hay: &[u8], needle: &[u8]) -> bool {
     hay.windows(needle.len()).any(|w| w == needle)
 }
 
-fn compare(which: &str, got: &[u8], want: &[String]) -> Option<(String, String)> {
+fn compare(which: &str, got: &[u8], want: &[Vec<String>]) -> Option<(String, String)> {
     let (recs, terminated) = records(got);
     if recs.len() != want.len() {
         return Some((
@@ -97,7 +102,7 @@ fn compare(which: &str, got: &[u8], want: &[String]) -> Option<(String, String)>
         return Some((format!("{}-record-count", which), format!("the last {} record is not newline-terminated", which)));
     }
     for (i, (r, w)) in recs.iter().zip(want.iter()).enumerate() {
-        if !contains(r, w.as_bytes()) {
+        if !w.iter().any(|alt| contains(r, alt.as_bytes())) {
             return Some((
                 format!("{}-record-content", which),
                 format!(
@@ -105,7 +110,7 @@ fn compare(which: &str, got: &[u8], want: &[String]) -> Option<(String, String)>
                     which,
                     i,
                     crate::json::show(r),
-                    w
+                    w[0]
                 ),
             ));
         }
